@@ -51,7 +51,7 @@ def build_cases(c):
     rng = c.rng
     L.COMBO = True
     cases = defect_cases()
-    n = 230 if c.tier == "quick" else 4000
+    n = 230 if c.tier == "quick" else 1500
     w = {"unauth": 5, "badauth": 4, "baduid": 4, "planted": 3, "oldorigin": 2, "replay": 2, "ntsn": 2, "deny": 1.5, "rate": 1.5,
          "answer": 5, "late": 1.5, "badorigin": 1.5}
     for i in range(n):
